@@ -303,3 +303,10 @@ Definition ex_silent : fsys :=
 Definition ex_unexisting : fsys :=
   [ ([97], {| gimports := [[98]]; grules := [ex_rule [77] [[88]; [89]]; ex_rule [88] []] |});
     ([98], {| gimports := [[97]]; grules := [ex_rule [89] [[88]]] |}) ]%N.
+
+(* a diamond: a imports b, c; both import d; overlapping rule names; one qualified reference *)
+Definition ex_diamond : fsys :=
+  [ ([97], {| gimports := [[98]; [99]]; grules := [ex_rule [77] [[88]; [89]; [87]; [99;46;87]]; ex_rule [89] []] |});
+    ([98], {| gimports := [[100]]; grules := [ex_rule [88] [[87]]; ex_rule [89] []] |});
+    ([99], {| gimports := [[100]]; grules := [ex_rule [89] [[87]]; ex_rule [87] []] |});
+    ([100], {| gimports := []; grules := [ex_rule [87] []; ex_rule [88] []] |}) ]%N.
